@@ -455,6 +455,15 @@ func (s *scope) createInstance(descriptor *Descriptor) (any, error) {
 		}
 	}
 
+	// The analysis is cached per code pointer, which closures of one function
+	// literal, method values of one method and reflect.MakeFunc functions
+	// share: always call the function value registered for this descriptor.
+	if info.IsFunc {
+		own := *info
+		own.Value = descriptor.Constructor
+		info = &own
+	}
+
 	// Get cached invoker (reduces allocations)
 	invoker := s.rootProvider.analyzer.GetInvoker()
 
